@@ -172,6 +172,31 @@ def regex_entry():
     b = _body(g)
     if len(b) != 1 or not isinstance(b[0], ast.Return) or not (isinstance(b[0].value, ast.Call) and ast.unparse(b[0].value.func) == "any"):
         raise Unsupported("match_allow_patterns is not `return any(...)`")
+    gen = b[0].value.args[0] if len(b[0].value.args) == 1 else None
+    if not (isinstance(gen, ast.GeneratorExp) and len(gen.generators) == 1 and not gen.generators[0].ifs
+            and ast.unparse(gen.generators[0].iter) == "allow_patterns" and isinstance(gen.generators[0].target, ast.Name)):
+        raise Unsupported("match_allow_patterns: generator over allow_patterns")
+    var = gen.generators[0].target.id
+    gc = [n for n in ast.walk(gen.elt) if isinstance(n, ast.Call) and ast.unparse(n.func) == "self._get_compiled"]
+    if len(gc) != 1 or len(gc[0].args) != 1:
+        raise Unsupported("match_allow_patterns: _get_compiled call")
+    marg = ast.unparse(gc[0].args[0])
+    if marg == var:
+        m_extracted = False
+    elif marg == f"{var} if isinstance({var}, str) else {var}['pattern']":
+        m_extracted = True
+    else:
+        raise Unsupported("match_allow_patterns: pattern expression " + marg[:60])
+    va = _method(D + "pattern_validator.py", "PatternValidator", "_validate_allow_patterns")
+    vb = [ast.unparse(x) for x in _body(va)]
+    if vb == ["with suppress(KeyError):\n    for pattern in rules['allow']:\n        self._validate_pattern(pattern)"]:
+        v_extracted = False
+    elif vb == ["with suppress(KeyError):\n    for allow_item in rules['allow']:\n        self._validate_pattern(_extract_pattern(allow_item))"]:
+        v_extracted = True
+    else:
+        raise Unsupported("_validate_allow_patterns: shape")
+    if m_extracted != v_extracted:
+        raise Unsupported("allow items are unwrapped in only one of validator / matcher")
     v = _method(D + "pattern_validator.py", "PatternValidator", "_validate_pattern")
     vc = [n for n in ast.walk(v) if isinstance(n, ast.Call) and ast.unparse(n.func) == "re.compile"]
     if len(vc) != 1 or len(vc[0].args) != 1 or vc[0].keywords or ast.unparse(vc[0].args[0]) != "pattern":
@@ -183,7 +208,8 @@ def regex_entry():
     if len(raises) != 1 or not (isinstance(raises[0].exc, ast.Call) and ast.unparse(raises[0].exc.func) == "ValueError" and len(raises[0].exc.args) == 1):
         raise Unsupported("_validate_pattern: raise ValueError(f'...')")
     msg = _fparts(raises[0].exc.args[0], {"pattern": "FPattern", "e": "FErr"}, "invalid pattern message")
-    return (defn("fp_match_flags", "list string", coq_str_list(flags))
+    return (defn("fp_allow_dict_supported", "bool", "true" if m_extracted else "false")
+            + defn("fp_match_flags", "list string", coq_str_list(flags))
             + defn("fp_match_methods", "list string", coq_str_list(methods))
             + defn("fp_invalid_exc", "string", coq_string("ValueError"))
             + defn("fp_invalid_msg", "list fpart", msg))
@@ -231,9 +257,21 @@ def matcher():
         raise Unsupported("_check_path_match: root branch")
     t1 = b[1].test
     if not (isinstance(t1, ast.Call) and isinstance(t1.func, ast.Attribute) and ast.unparse(t1.func.value) == "path_str"
-            and len(t1.args) == 1 and ast.unparse(t1.args[0]) == "dir_path"):
+            and len(t1.args) == 1 and not t1.keywords):
         raise Unsupported("_check_path_match: prefix test")
     method = t1.func.attr
+    parg = t1.args[0]
+    if ast.unparse(parg) == "dir_path":          # bare string prefix
+        prefix_form = "PfBare"
+    elif (isinstance(parg, ast.BinOp) and isinstance(parg.op, ast.Add) and isinstance(parg.left, ast.Call)
+          and ast.unparse(parg.left.func) == "dir_path.rstrip" and len(parg.left.args) == 1 and not parg.left.keywords):
+        strip = _str(parg.left.args[0], "rstrip argument")     # dir_path.rstrip(c) + sep
+        psep = _str(parg.right, "prefix separator")
+        if len(strip) != 1 or not (32 <= ord(strip) < 127) or strip == '"':
+            raise Unsupported("rstrip argument is not a single printable character")
+        prefix_form = f'PfRstripSep "{strip}"%char {coq_string(psep)}'
+    else:
+        raise Unsupported("_check_path_match: prefix test argument " + ast.unparse(parg)[:60])
     body1 = [ast.unparse(s) for s in b[1].body]
     if len(body1) != 2 or body1[1] not in ("return (True, depth)",) or b[1].orelse:
         raise Unsupported("_check_path_match: prefix branch")
@@ -274,6 +312,7 @@ def matcher():
             + defn("fp_root_key", "string", coq_string(root1)) + defn("fp_root_key2", "string", coq_string(root2))
             + defn("fp_root_notin", "string", coq_string(notin)) + defn("fp_root_depth", "Z", f"({rdepth})%Z")
             + defn("fp_prefix_method", "string", coq_string(method))
+            + defn("fp_prefix_form", "prefix_form", prefix_form)
             + defn("fp_split_sep", "ascii", f'"{sep}"%char'))
 
 
@@ -409,10 +448,15 @@ def resolver():
         raise Unsupported("normalize_path_string")
     g = _method(rel, "PathResolver", "get_relative_path")
     gb = [ast.unparse(s) for s in _body(g)]
-    if gb != ["try:\n    if file_path.is_absolute():\n        return file_path.relative_to(self.project_root)\n    return file_path\n"
-              "except ValueError:\n    return file_path"]:
+    head = "try:\n    if file_path.is_absolute():\n        return file_path.relative_to(self.project_root)\n    return "
+    tail = "\nexcept ValueError:\n    return file_path"
+    if gb == [head + "file_path" + tail]:
+        resolved = False      # a relative path is used as given (relative to the working directory)
+    elif gb == [head + "file_path.resolve().relative_to(self.project_root.resolve())" + tail]:
+        resolved = True       # resolved against the working directory, re-expressed relative to the project root
+    else:
         raise Unsupported("get_relative_path")
-    return defn("fp_path_sep", "string", coq_string("/"))
+    return defn("fp_path_sep", "string", coq_string("/")) + defn("fp_relative_resolved", "bool", "true" if resolved else "false")
 
 
 ITEMS = [
